@@ -1,6 +1,6 @@
 (** Property C19 — scoring schemes: validation, scaling and equivalence.
     Only statements; every proof is [exact <lemma>]. *)
-From Corankco Require Import Prelude Scheme SchemeProof Rank KemenySpec CostTableProof.
+From Corankco Require Import Prelude Scheme SchemeProof Rank KemenySpec CostTableProof EquivOrder.
 Local Open Scope Z_scope.
 
 (** accepted exactly when two lists of six non-negative numbers with the six relations *)
@@ -63,6 +63,15 @@ Theorem C19_is_equivalent_iff : forall stop s1 s2,
   nonneg s1 -> nonneg s2 -> (is_equivalent_generic stop s1 s2 = true <-> equiv_spec stop s1 s2).
 Proof. exact is_equivalent_iff. Qed.
 Print Assumptions C19_is_equivalent_iff.
+
+(** what equivalence is for: two schemes the library calls equivalent order all candidates alike against every dataset (same
+    comparisons, same ties), hence have the same optimal consensuses - the guards of PickAPerm / Borda / BioConsert rely on it *)
+Theorem C19_equivalent_schemes_same_order : forall s1 s2,
+  nonneg s1 -> nonneg s2 -> is_equivalent_to s1 s2 = true ->
+  forall D c1 c2, (kemeny_spec s1 D c1 <= kemeny_spec s1 D c2 <-> kemeny_spec s2 D c1 <= kemeny_spec s2 D c2) /\
+                  (kemeny_spec s1 D c1 = kemeny_spec s1 D c2 <-> kemeny_spec s2 D c1 = kemeny_spec s2 D c2).
+Proof. exact equivalent_schemes_same_order. Qed.
+Print Assumptions C19_equivalent_schemes_same_order.
 
 Theorem C19_equiv_spec_full : forall s1 s2,
   equiv_spec 6 s1 s2 <->
